@@ -778,7 +778,7 @@ def correspond(ctx, drivers):
     corr_nested(ctx, drv)
     corr_from_angle(ctx, drv)
     # histories
-    n_hist = ctx.budget(250, 2500)
+    n_hist = ctx.budget(250, 4000)
     reqs, meta = [], []
     ctx.extra['history_seeds'] = []
     for _ in range(n_hist):
